@@ -74,6 +74,9 @@ def random_table(seed):
     t = _t0()
     t["id"] = "R%d" % seed
     ids = r.sample(_IDS, 4)
+    if r.random() < 0.34:     # related names: suffix / prefix of a neighbour
+        base = r.choice(("size", "dir", "rate", "name", "steps"))
+        ids = [base, r.choice(("batch_", "data_", "min_", "n_")) + base, base + r.choice(("_max", "_decay", "s")), "use_" + base]
     t["names"] = {"p1": ids[0], "p2": ids[1], "p3": ids[2], "p4": ids[3], "kw": r.choice(("kwargs", "model_kwargs", "opt_kwargs"))}
     lit = tuple(r.sample(("sgd", "adam", "l1", "l2", "same", "valid", "r", "w"), 2))
     t["lit"] = lit
@@ -132,8 +135,21 @@ def sweep_table(length):
     return t
 
 
+def _tn():
+    """T0 with *related* parameter names: each is a suffix or a prefix of a neighbour (rate / learning_rate / learning /
+    rate_decay), the way real signatures have size / batch_size or dir / data_dir next to each other."""
+    t = _t0()
+    t["id"] = "TN"
+    t["names"] = {"p1": "rate", "p2": "learning_rate", "p3": "learning", "p4": "rate_decay", "kw": "rate_kwargs"}
+    # prose that starts with a word the parsers treat specially ("Optional ..." wraps the type in Optional[..]): used only for
+    # slots whose type already is Optional[..], where the wrapper must stay exactly one (see realise / a_prose)
+    t["prose_opt"] = {"p1": "Optional name prefix for the dataset", "p2": "(Optional) directory to look for models in",
+                      "p3": "Optional number of samples per batch"}
+    return t
+
+
 def tables(n_random=0, seed=0):
-    ts = [_t0(), _t1()]
+    ts = [_t0(), _t1(), _tn()]
     for i in range(n_random):
         ts.append(random_table(seed * 1000 + i + 1))
     return ts
@@ -172,10 +188,15 @@ def paren(code):
     return code if code[0] + code[-1] in ("()", "[]", "{}") else "(%s)" % code
 
 
-def g_prose(table, key, dbase, dstop, dann="no", deftext=None):
+OPT_TOKS = ("OptStr", "OptInt", "OptBool")
+
+
+def g_prose(table, key, dbase, dstop, dann="no", deftext=None, typ_tok=None):
     if dbase != "own":
         return None
     s = table["prose"][key]
+    if typ_tok in OPT_TOKS and key in table.get("prose_opt", {}):
+        s = table["prose_opt"][key]
     if dstop:
         s += "."
     if dann == "same" and deftext is not None:
@@ -196,7 +217,7 @@ def realise(table, air):
         present, v = g_def(table, s["def"], s["typ"])
         if present:
             d["default"] = v
-        p = g_prose(table, s["name"], s["dbase"], s["dstop"], s.get("dann", "no"), render_default(v) if present else None)
+        p = g_prose(table, s["name"], s["dbase"], s["dstop"], s.get("dann", "no"), render_default(v) if present else None, typ_tok=s["typ"])
         if p is not None:
             d["doc"] = p
         params[table["names"][s["name"]]] = d
@@ -365,6 +386,9 @@ def a_prose(table, key, doc, deftok, typ_toks=("none",), is_ret=False):
         return "other", False, "no"
     s = norm_ws(doc)
     p0 = norm_ws(table["prose"][key])
+    alt = table.get("prose_opt", {}).get(key)
+    if alt is not None and s.startswith(norm_ws(alt)):
+        p0 = norm_ws(alt)
     if not s.startswith(p0):
         return "other", False, "no"
     rest = s[len(p0):]
